@@ -23,12 +23,12 @@ type Comparer struct {
 	L   *Lexed
 	Mis []Mismatch
 
-	Values    bool // compare captured values (C01)
-	Positions bool // compare Pos / EndPos / Tokens (C11)
+	Values      bool // compare captured values (C01)
+	Positions   bool // compare Pos / EndPos / Tokens (C11)
 	NamesElided bool // the grammar names elided types: Pos/EndPos are outside C11's statement, only Tokens is checked
-	NodesSeen int
-	PosNodes  int // nodes whose Pos/EndPos/Tokens were checked
-	ElidedAdj int // nodes with an elided token adjacent to a run boundary
+	NodesSeen   int
+	PosNodes    int // nodes whose Pos/EndPos/Tokens were checked
+	ElidedAdj   int // nodes with an elided token adjacent to a run boundary
 }
 
 func (c *Comparer) add(path, cat, format string, args ...any) {
